@@ -32,20 +32,25 @@ Record dcase := {
 
 Definition vals_eqb := list_eqb val_eqb.
 
-Definition agree (c : dcase) : bool :=
+(* the gather variant is chosen by the caller: as found (false) / repaired = ordered (true) *)
+Definition with_ordered (o : bool) (c : cfg) : cfg :=
+  {| c_pre := c_pre c; c_post := c_post c; c_ordered := o |}.
+
+Definition agree (ordered : bool) (c : dcase) : bool :=
+  let cf := with_ordered ordered (dc_cfg c) in
   let p := stages_of (dc_cfg c) (dc_buffered c) in
   let loc := lrun p (dc_inputs c) in
   vals_eqb loc (dc_local c)
   && (if dc_op c
-      then list_eqb vals_eqb (exec_trace (dc_cfg c) (w_init (dc_cfg c)) (dc_events c)) (dc_steps c)
+      then list_eqb vals_eqb (exec_trace cf (w_init cf) (dc_events c)) (dc_steps c)
       else true)
   && (if dc_complete c
       then let '(st, arr) := drun p (dc_inputs c) in vals_eqb (map (force st) arr) (concat (dc_steps c))
       else true).
 
-Fixpoint mism_from (i : nat) (cs : list dcase) : list nat :=
+Fixpoint mism_from (o : bool) (i : nat) (cs : list dcase) : list nat :=
   match cs with
   | [] => []
-  | c :: t => if agree c then mism_from (S i) t else i :: mism_from (S i) t
+  | c :: t => if agree o c then mism_from o (S i) t else i :: mism_from o (S i) t
   end.
-Definition mismatches (cs : list dcase) : list nat := mism_from 0 cs.
+Definition mismatches (ordered : bool) (cs : list dcase) : list nat := mism_from ordered 0 cs.
